@@ -71,7 +71,10 @@ type permCtx struct {
 
 var permByGoroutine sync.Map // goid -> *permCtx
 
-func goid() uint64 {
+// slowGoid reads the goroutine id from the header runtime.Stack prints (a full
+// symbolised traceback under the runtime's global print lock per call); goid()
+// (goid_fast.go) reads it from the g structure when that is unambiguous.
+func slowGoid() uint64 {
 	var buf [64]byte
 	n := runtime.Stack(buf[:], false)
 	b := buf[10:n] // after "goroutine "
@@ -691,7 +694,7 @@ func main() {
 	if rp := run.ReplayPath(); rp != "" {
 		replay(run, rp)
 	}
-	run.Rule = "E3: BFS over announce sequences: op = (announcing agent, completion flag, index of the permutation LocalStore.GetPeers draws) through the real tracker HTTP handler on a real LocalStore; one search per (policy in {default, completeness}) x (PeerHandoutLimit in {1,2,5}) x (number of blob origins in {0,1,2}) [thorough: plus the v1 endpoint on a 4-search sub-grid]; state = agents in store order with their latest completion flag. E3 with expiry: the same operations plus {advance the clock past the TTL, cleanupExpiredPeerEntries, cleanupExpiredPeerGroups} (explicit clock, passes called directly), permutation alphabet sized by the store's own listing, state additionally holds fresh/expired per agent. Swarm draws: for PeerHandoutLimit in {3,4} and every swarm size from limit+1 to 6 (completeness policy, 1 origin) [thorough: also limit 5, the default policy without origin and 2 origins, and 7 agents with limits 3..6], one long-lived store of that many agents walks through all 2^size completion flag vectors by single announces (Gray code) [thorough, 7 agents with limit 4/5: the staircase vectors]; at every vector every stored agent in turn re-announces with its stored flag once per sequence of answers math/rand can give to the draws LocalStore.GetPeers asks for (the tree of draw answers is walked depth first, each draw's range is discovered when the code asks for it, so no sampling algorithm is assumed), through Server.announce (first sequence of every enumeration, and every store-changing announce, through the HTTP router). E1: generated scenarios = every start state (1-2 [thorough 1-3] stored agents, each expired or fresh, every list order up to agent symmetry, at least one expired) x every announcer program of length 1-2 over {stored agents + one new agent} x {complete, incomplete} [thorough: also two announcer threads, groups pass first, default policy without origin, a clock-tick thread]; one cleaner thread runs the entry pass then the group pass while the announcer threads announce through the real handler; every interleaving at every Lock/RLock/Unlock/RUnlock of tracker/peerstore with at most 2 [thorough 3] preemptions is executed, then the same store serves closing announces of every agent, a clock advance, refreshes, a second cleanup and more announces (with a binding limit every permutation of a closing announce is drawn). Every 200 response of every phase is checked against all five clauses. distinct = (search, state) pairs + handout outcome classes + (swarm unit, flag vector) pairs + (E1 scenario, outcome) pairs, outcome = overlap flags + handouts of the concurrent announces + store listing after the race and at the end."
+	run.Rule = "E3: BFS over announce sequences: op = (announcing agent, completion flag, index of the permutation LocalStore.GetPeers draws) through the real tracker HTTP handler on a real LocalStore; one search per (policy in {default, completeness}) x (PeerHandoutLimit in {1,2,5}) x (number of blob origins in {0,1,2}) [thorough: plus the v1 endpoint on a 4-search sub-grid]; state = agents in store order with their latest completion flag. E3 with expiry: the same operations plus {advance the clock past the TTL, cleanupExpiredPeerEntries, cleanupExpiredPeerGroups} (explicit clock, passes called directly), permutation alphabet sized by the store's own listing, state additionally holds fresh/expired per agent. Swarm draws: for PeerHandoutLimit in {3,4} and every swarm size from limit+1 to 6 (completeness policy, 1 origin) [thorough: also limit 5, the default policy without origin and 2 origins, and 7 agents with limits 3..6], one long-lived store of that many agents walks through all 2^size completion flag vectors by single announces (Gray code) [thorough, 7 agents with limit 4/5: the staircase vectors]; at every vector every stored agent in turn re-announces with its stored flag once per sequence of answers math/rand can give to the draws LocalStore.GetPeers asks for (the tree of draw answers is walked depth first, each draw's range is discovered when the code asks for it, so no sampling algorithm is assumed), through the real HTTP handler (thorough, 7 agents: first sequence of every enumeration and every store-changing announce through the HTTP handler, the other sequences through Server.announce). E1: generated scenarios = every start state (1-2 [thorough 1-3] stored agents, each expired or fresh, every list order up to agent symmetry, at least one expired) x every announcer program of length 1-2 over {stored agents + one new agent} x {complete, incomplete} [thorough: also two announcer threads, groups pass first, default policy without origin, a clock-tick thread]; one cleaner thread runs the entry pass then the group pass while the announcer threads announce through the real handler; every interleaving at every Lock/RLock/Unlock/RUnlock of tracker/peerstore with at most 2 [thorough 3] preemptions is executed, then the same store serves closing announces of every agent, a clock advance, refreshes, a second cleanup and more announces (with a binding limit every permutation of a closing announce is drawn). Every 200 response of every phase is checked against all five clauses. distinct = (search, state) pairs + handout outcome classes + (swarm unit, flag vector) pairs + (E1 scenario, outcome) pairs, outcome = overlap flags + handouts of the concurrent announces + store listing after the race and at the end."
 	run.Assume("announcers are agents (Origin=false): origins run with announcing disabled (lib/torrent/scheduler/constructors.go)")
 	run.Assume("E3 without expiry: the mock clock does not advance; E3 with expiry: every advance exceeds the TTL (an entry is fresh or expired, never at the boundary; which expired entries a store still lists is C27's subject -- the C26 clauses do not depend on it); one blob per search; swarm part: the clock does not advance, a re-announce with unchanged fields leaves the store as it is (so all draw sequences of one store state are taken on the same store)")
 	run.Assume("math/rand in tracker/peerstore is rewritten to verif/shim/vrand by the build overlay; every permutation GetPeers can draw is enumerated as part of the operation (BFS, closing announces under a binding limit); in the swarm part every draw of every announce is answered by the check and every answer vector is enumerated, whatever draws the code asks for (at most 64 draws and 200000 vectors per announce, else the run is marked not exhaustive); announces of the concurrent E1 phase draw the identity permutation")
